@@ -230,6 +230,18 @@ func (c *Ctx) rwFreshPerRequest(w *Wrapper) {
 func (w *Wrapper) embCall(p *Program, ci ssa.CallInstruction, fr *Frame) (string, bool) {
 	cc := ci.Common()
 	if !cc.IsInvoke() {
+		// http.NewResponseController(w.ResponseWriter).Flush() / .Hijack(): the controller calls the
+		// embedded writer's FlushError/Flush or Hijack (directly or through its Unwrap chain)
+		switch n := CalleeName(ci); n {
+		case "(*net/http.ResponseController).Flush", "(*net/http.ResponseController).Hijack":
+			if len(cc.Args) > 0 {
+				if mk, ok := cc.Args[0].(*ssa.Call); ok && CalleeName(mk) == "net/http.NewResponseController" && len(mk.Call.Args) == 1 {
+					if strings.Contains(p.Desc(mk.Call.Args[0], fr), "fld:"+w.Key+"."+w.Embed) {
+						return strings.TrimPrefix(n, "(*net/http.ResponseController)."), true
+					}
+				}
+			}
+		}
 		return "", false
 	}
 	recvT := cc.Value.Type().String()
@@ -435,7 +447,7 @@ func (c *Ctx) analyseWrapper(w *Wrapper) *wrapperFacts {
 		ok := true
 		for name, ts := range f.traces {
 			switch name {
-			case "Write", "WriteHeader", "Flush", "ReadFrom", "Push":
+			case "Write", "WriteHeader", "Flush", "FlushError", "ReadFrom", "Push":
 			default:
 				continue // only what a downstream handler can call
 			}
@@ -527,8 +539,14 @@ func (c *Ctx) rwForwarding(ws []*Wrapper, needHijack, needFlush bool, sel func(*
 			})
 		}
 		pos := p.Pos(w.Named.Obj().Pos())
-		check := func(rule, method, iface string) {
-			fn := w.Methods[method]
+		var checkAs func(rule, method, embMethod, iface string)
+		check := func(rule, method, iface string) { checkAs(rule, method, method, iface) }
+		checkAs = func(rule, name, method, iface string) {
+			fn := w.Methods[name]
+			construct := w.Key
+			if name != method {
+				construct = w.Key + "/" + name
+			}
 			ok := false
 			detail := "wrapper has no " + method + " method and no Unwrap: an embedded interface promotes only Header/Write/WriteHeader, so " + iface + " support is silently dropped"
 			if fn != nil {
@@ -567,7 +585,7 @@ func (c *Ctx) rwForwarding(ws []*Wrapper, needHijack, needFlush bool, sel func(*
 							if r, isRet := t.RetInstr.(*ssa.Return); isRet {
 								for _, v := range r.Results {
 									d := p.Desc(v, nil)
-									if !strings.Contains(d, "call:(net/http.Hijacker).Hijack") && !strings.Contains(d, "phi(") && !strings.HasPrefix(d, "var:") {
+									if !strings.Contains(d, "call:(net/http.Hijacker).Hijack") && !strings.Contains(d, "call:(*net/http.ResponseController).Hijack") && !strings.Contains(d, "phi(") && !strings.HasPrefix(d, "var:") {
 										direct = false
 									}
 								}
@@ -584,10 +602,18 @@ func (c *Ctx) rwForwarding(ws []*Wrapper, needHijack, needFlush bool, sel func(*
 					detail = method + " returns without reaching the embedded writer's " + method + " although that writer supports it (a flush of the response head before the first body byte, an SSE keep-alive, … is swallowed; http.ResponseController prefers this method over Unwrap): " + firstN(swallowed, 300)
 				}
 			}
+			if !ok && unwrap && fn == nil {
+				// Unwrap serves callers that go through http.ResponseController; a wrapper further out
+				// that looks for the interface by type assertion on the writer it wraps does not see it
+				if by := c.assertBasedForwarders(ws, w, method); len(by) > 0 {
+					c.Fail(rule, construct, pos, "the wrapper offers only Unwrap, but "+strings.Join(by, ", ")+" find(s) "+iface+" by a type assertion on the writer it wraps: whenever this wrapper is that writer (the plugin order is configuration) the assertion fails and "+method+" is refused — a WebSocket upgrade is answered 502, a streamed chunk waits for the end of the response")
+					return
+				}
+			}
 			if ok || (unwrap && fn == nil) {
-				c.Pass(rule, w.Key, pos, map[bool]string{true: method + " forwards to the embedded writer", false: "Unwrap exposes the embedded writer to http.ResponseController"}[ok])
+				c.Pass(rule, construct, pos, map[bool]string{true: name + " forwards to the embedded writer", false: "Unwrap exposes the embedded writer to http.ResponseController (no wrapper looks for the interface by type assertion)"}[ok])
 			} else {
-				c.Fail(rule, w.Key, pos, detail)
+				c.Fail(rule, construct, pos, detail)
 			}
 		}
 		if needHijack {
@@ -595,6 +621,10 @@ func (c *Ctx) rwForwarding(ws []*Wrapper, needHijack, needFlush bool, sel func(*
 		}
 		if needFlush {
 			check("wrapper-forwards-flush", "Flush", "http.Flusher (streaming, SSE)")
+			if w.Methods["FlushError"] != nil {
+				// preferred by http.ResponseController over Flush: it must flush just as well
+				checkAs("wrapper-forwards-flush", "FlushError", "Flush", "http.Flusher (streaming, SSE)")
+			}
 		}
 	}
 }
@@ -620,7 +650,9 @@ func (c *Ctx) rwHeaderTypestate(w *Wrapper) {
 	}
 	// (2a) body/flush methods commit the recorded status first
 	if f.Deferring {
-		for _, m := range []string{"Write", "Flush"} {
+		for _, m := range []string{"Write", "Flush", "FlushError", "ReadFrom"} {
+			// (FlushError is what http.ResponseController — and so the reverse proxy's streaming
+			// copy — prefers over Flush)
 			ts, ok := f.traces[m]
 			if !ok {
 				continue
@@ -652,6 +684,12 @@ func (c *Ctx) rwHeaderTypestate(w *Wrapper) {
 			} else {
 				c.Fail("deferred-status-delivered", w.Key+"."+m, p.Pos(w.Methods[m].Pos()), firstLine(bad[0]), bad...)
 			}
+		}
+		// a deferring wrapper that offers Unwrap but no flush method of its own lets
+		// http.ResponseController flush the embedded writer directly: the implicit 200 goes out
+		// instead of the recorded status
+		if w.Methods["Unwrap"] != nil && w.Methods["Flush"] == nil && w.Methods["FlushError"] == nil {
+			c.Fail("deferred-status-delivered", w.Key+".Unwrap", p.Pos(w.Methods["Unwrap"].Pos()), "the wrapper holds the status back but exposes the embedded writer through Unwrap without a Flush of its own: http.ResponseController (the reverse proxy's streaming copy) flushes the embedded writer directly, committing an implicit 200 before the recorded status is sent")
 		}
 		// the status recorded is the most recent one written while the header is still unsent
 		// (an informational 1xx is followed by the final status)
@@ -852,4 +890,27 @@ func (w *Wrapper) buffersBody() bool {
 		}
 	}
 	return false
+}
+
+// assertBasedForwarders: the wrappers other than self whose method (Hijack/Flush) reaches the
+// embedded writer's method through a type assertion to the optional interface.
+func (c *Ctx) assertBasedForwarders(ws []*Wrapper, self *Wrapper, method string) []string {
+	iface := map[string]string{"Hijack": "net/http.Hijacker", "Flush": "net/http.Flusher"}[method]
+	var out []string
+	for _, w := range ws {
+		if w == self || w.Methods[method] == nil {
+			continue
+		}
+		hit := false
+		instrsOf(w.Methods[method], func(in ssa.Instruction) {
+			if ta, ok := in.(*ssa.TypeAssert); ok && ta.AssertedType.String() == iface {
+				hit = true
+			}
+		})
+		if hit {
+			out = append(out, w.Key+"."+method)
+		}
+	}
+	sort.Strings(out)
+	return out
 }
